@@ -1,5 +1,12 @@
-(* Driver for M1 (pool).  Trace: first line "cfg size=<n|inf> kind=<task|simple> bad=<b> w=<ws>
-   ecb=<cb> ccb=<cb>", then "<label> ; <obs>" lines.  See harness/poolrun.py for the same format. *)
+(* Driver for M1 (pool).  Trace: first line "cfg size=<n|inf> kind=<task|simple> bad=<pat> w=<ws>
+   ecb=<cb> ccb=<cb>", then "<label> ; <obs>" lines.  See harness/poolrun.py for the same format.
+
+   Failure patterns (<pat>, field bad= of "apply" labels and of the cfg line): the model has one
+   representation, a [bool list] (invocation i raises iff its i-th entry is true; indices beyond
+   the list do not fail).  Syntax: "0" = no call fails ([]); "p0101..." = that explicit pattern;
+   "1" = every call fails - translated here to a pattern of trues that covers every invocation
+   index the request(s) can reach: [num] trues for apply, and for the cfg line as many as the
+   largest num= of the trace's start labels. *)
 open Common
 open PTypes
 open PRecords
@@ -40,6 +47,20 @@ let parse_ogname s = if s = "-" then None else Some (parse_gname s)
 let parse_elem (s : string) : elem =
   { e_bad = (s.[0] = '1'); e_w = parse_w (S.sub s 1 2) }
 
+let rec all_true (n : int) : bool list = if n <= 0 then [] else true :: all_true (n - 1)
+
+(* [n] = how many invocation indices "every call fails" has to cover *)
+let parse_pat (n : int) (s : string) : bool list =
+  if s = "0" then []
+  else if s = "1" then all_true n
+  else if S.length s >= 1 && s.[0] = 'p' then
+    L.init (S.length s - 1) (fun k -> match s.[k + 1] with
+        | '1' -> true | '0' -> false | _ -> failwith ("pattern " ^ s))
+  else failwith ("pattern " ^ s)
+
+let show_pat (p : bool list) : string =
+  if p = [] then "0" else "p" ^ S.concat "" (L.map (fun b -> if b then "1" else "0") p)
+
 let parse_tref (s : string) : tref =
   let n = ni (S.sub s 1 (S.length s - 1)) in
   match s.[0] with 'P' -> TP n | 'M' -> TM n | 'D' -> TD n | _ -> failwith ("tref " ^ s)
@@ -61,7 +82,8 @@ let parse_label (s : string) : label =
       let kv = parse_kvs (S.concat " " rest) in
       let f = field kv in
       let o = match opname with
-        | "apply" -> OpApply (ni (f "num"), bs (f "bad"), bs (f "nonco"), parse_w (f "w"),
+        | "apply" -> OpApply (ni (f "num"), parse_pat (int_of_string (f "num")) (f "bad"),
+                              bs (f "nonco"), parse_w (f "w"),
                               parse_cb (f "ecb"), parse_cb (f "ccb"), parse_ogname (f "g"))
         | "map" -> OpMap (ni (f "stars"), L.map parse_elem (split_list ',' (f "els")),
                           ni (f "nc"), bs (f "nonco"), parse_cb (f "ecb"), parse_cb (f "ccb"),
@@ -86,14 +108,25 @@ let parse_label (s : string) : label =
       LOp o
   | [] -> failwith "empty label"
 
-let parse_cfg (s : string) : config =
+(* the largest num= among the start labels of a trace ("label ; obs" lines) *)
+let max_start_num (lines : string list) : int =
+  L.fold_left (fun acc line ->
+      let (ls, _) = split_line line in
+      match words ls with
+      | "start" :: rest ->
+          (try max acc (int_of_string (field (parse_kvs (S.concat " " rest)) "num"))
+           with _ -> acc)
+      | _ -> acc) 0 lines
+
+(* [lines] = the rest of the trace (needed only to size the pattern of bad=1) *)
+let parse_cfg (s : string) (lines : string list) : config =
   match words s with
   | "cfg" :: rest ->
       let kv = parse_kvs (S.concat " " rest) in
       let f = field kv in
       { cf_size = parse_ninf (f "size");
         cf_kind = (if f "kind" = "simple" then KSimple else KTask);
-        cf_bad = bs (f "bad"); cf_w = parse_w (f "w");
+        cf_bad = parse_pat (max_start_num lines) (f "bad"); cf_w = parse_w (f "w");
         cf_ecb = parse_cb (f "ecb"); cf_ccb = parse_cb (f "ccb") }
   | _ -> failwith ("expected cfg line, got: " ^ s)
 
@@ -242,7 +275,7 @@ let run_model lines =
   match lines with
   | [] -> ()
   | c :: rest ->
-      let s = ref (init (parse_cfg c)) in
+      let s = ref (init (parse_cfg c rest)) in
       L.iter (fun line ->
           let (ls, _) = split_line line in
           let (s', o) = observe1 !s (parse_label ls) in
